@@ -303,6 +303,72 @@ def count_patterns(Sn, An, m):
     return [p for p in dict.fromkeys(pats) if any(c >= m for c in p)]
 
 
+# ---------------------------------------------------------------- tier U: the count-limited model update over abstract arrays of any size
+
+def h_observe_U():
+    """RMAX._observe(state, action, reward, next_state, gamma) over ABSTRACT model arrays (z3 arrays of any shape and content), arbitrary integer indices,
+    symbolic threshold m: below the threshold exactly (rewards[s,a] += r; counts[s,a] += 1; transitions[s,a,ns] += 1) and nothing else changes, value
+    iteration is re-run (with the given discount) exactly when the count reaches m; at or above the threshold nothing changes and nothing is re-planned.
+    Together with the initial counts 0 this is the induction step of  counts <= m  and of  "the model of a pair is frozen after m samples"."""
+    import z3
+    I, Rl = z3.IntSort(), z3.RealSort()
+
+    class Arr:
+        """a numpy array of unknown shape: total z3 array, scalar integer indices only"""
+        def __init__(self, name, nd):
+            self.nd = nd
+            self.a = z3.Const(name, z3.ArraySort(*([I] * nd), Rl))
+            S.cur().inputs[name] = self.a
+            self.init = self.a
+
+        def _ix(self, k):
+            k = k if isinstance(k, tuple) else (k,)
+            if len(k) != self.nd:
+                raise S.Unsupported('partial indexing of an abstract array')
+            return [z3.simplify(z3.ToInt(S.as_real(x).e)) if not isinstance(x, int) else z3.IntVal(x) for x in k]
+
+        def __getitem__(self, k): return S.SymReal(z3.simplify(z3.Select(self.a, *self._ix(k))))
+        def __setitem__(self, k, v): self.a = z3.Store(self.a, *self._ix(k), S.as_real(v).e)
+
+        def at(self, arr, *ix): return S.SymReal(z3.Select(arr, *[i.e if hasattr(i, 'e') else i for i in ix]))
+    learner = rm.RMAX.__new__(rm.RMAX)
+    learner.m = S.integer('m', 1, None)
+    learner.rewards, learner.s_a_counts, learner.transitions = Arr('rewards', 2), Arr('counts', 2), Arr('transitions', 3)
+    calls = []
+    learner._value_iteration = lambda gamma: calls.append((gamma, learner.rewards.a, learner.s_a_counts.a, learner.transitions.a))
+    st, ac, ns = S.integer('state', 0, None), S.integer('action', 0, None), S.integer('next_state', 0, None)
+    r, g = S.real('reward'), S.real('gamma')
+    # counts are non-negative integers (initialised to 0, only ever incremented: part of this very contract): the cell in question holds ToReal(k0), k0 >= 0
+    k0 = z3.Int('count_before')
+    S.cur().inputs['count_before'] = k0
+    S.assume(S.SymBool(k0 >= 0))
+    cnt = learner.s_a_counts
+    cnt.a = cnt.init = z3.Store(cnt.a, *cnt._ix((st, ac)), z3.ToReal(k0))
+    c0 = learner.s_a_counts[st, ac]
+    rm.RMAX._observe(learner, st, ac, r, ns, g)
+    X, Y, Z = (z3.Int(n) for n in ('anyS', 'anyA', 'anyN'))
+    for n in (X, Y, Z):
+        S.cur().inputs[str(n)] = n
+    R0, C0, T0 = learner.rewards.init, learner.s_a_counts.init, learner.transitions.init
+    R1, C1, T1 = learner.rewards.a, learner.s_a_counts.a, learner.transitions.a
+    sz, az, nz = (z3.simplify(z3.ToInt(S.as_real(x).e)) for x in (st, ac, ns))
+    hit2 = z3.And(X == sz, Y == az)
+    hit3 = z3.And(X == sz, Y == az, Z == nz)
+    below = S.lt(c0, learner.m, tol=0)
+    sel = lambda A, *ix: S.SymReal(z3.Select(A, *ix))
+    S.check('U:_observe:below-the-threshold-the-sample-is-recorded-exactly-once;nothing-else-changes', S.Implies(below, S.And([
+        S.eq(sel(R1, X, Y), S.If(S.SymBool(hit2), sel(R0, X, Y) + r, sel(R0, X, Y))),
+        S.eq(sel(C1, X, Y), S.If(S.SymBool(hit2), sel(C0, X, Y) + 1, sel(C0, X, Y))),
+        S.eq(sel(T1, X, Y, Z), S.If(S.SymBool(hit3), sel(T0, X, Y, Z) + 1, sel(T0, X, Y, Z)))])))
+    S.check('U:_observe:at-or-above-the-threshold-the-model-is-frozen', S.Implies(S.Not(below), S.And([
+        S.eq(sel(R1, X, Y), sel(R0, X, Y)), S.eq(sel(C1, X, Y), sel(C0, X, Y)), S.eq(sel(T1, X, Y, Z), sel(T0, X, Y, Z)), S.truth(len(calls) == 0)])))
+    reached = S.And([below, S.eq(c0 + 1, learner.m)])
+    S.check('U:_observe:re-plans-exactly-when-the-count-reaches-m,once,with-the-given-discount,on-the-updated-model', S.And([
+        S.Iff(S.truth(len(calls) == 1), reached), S.truth(len(calls) <= 1),
+        S.truth(all(c[0] is g and c[1] is R1 and c[2] is C1 and c[3] is T1 for c in calls))]))
+    S.check('U:_observe:counts-never-exceed-the-threshold', S.Implies(S.le(c0, learner.m), S.le(sel(C1, sz, az), learner.m)))
+
+
 def tasks(tier, seed):
     T = []
     for (Sn, An) in ((2, 2), (3, 2)):
@@ -315,6 +381,7 @@ def tasks(tier, seed):
                 if tier == 'quick' and ep == 2 and (m == 2 or sk.name == 'r3'):
                     continue
                 T.append(Task('train_on/%s/m%d/ep%d' % (sk.name, m, ep), h_train, (sk, m, ep, (8 if (m == 1 and ep == 2) else 10) if sk.name == 'r3' else 12), tier='B', max_paths=8000, deadline_s=400))
+    T.append(Task('U/_observe/abstract-model-arrays', h_observe_U, (), tier='U', note='arrays of any shape/content, symbolic threshold'))
     T.append(Task('rt/real-seeds', rt_real, (seed, 25 if tier == 'quick' else 200), tier='R', kind='rt'))
     return T
 
@@ -328,3 +395,15 @@ MANIFEST_ENTRY = dict(
     note='Bounded shapes/thresholds/run lengths (tier B); termination of the inner loop not proved; discount generic rational.',
 )
 END_MANIFEST_ENTRY = True
+
+
+SENTINELS = globals().get('SENTINELS', []) + [
+    Sentinel('U:observe-keeps-counting-past-the-threshold', 'msdm.algorithms.rmax', "        if self.s_a_counts[state, action] < self.m:\n            self.rewards[state, action] += reward",
+             "        if self.s_a_counts[state, action] <= self.m:\n            self.rewards[state, action] += reward", ['U/_observe/abstract-model-arrays']),
+    Sentinel('U:observe-records-the-transition-from-the-wrong-state', 'msdm.algorithms.rmax', "            self.transitions[state, action, next_state] += 1", "            self.transitions[next_state, action, state] += 1",
+             ['U/_observe/abstract-model-arrays']),
+    Sentinel('U:observe-replans-one-sample-late', 'msdm.algorithms.rmax', "            if self.s_a_counts[state, action] == self.m:", "            if self.s_a_counts[state, action] > self.m:",
+             ['U/_observe/abstract-model-arrays']),
+    Sentinel('U:observe-overwrites-the-reward-sum', 'msdm.algorithms.rmax', "            self.rewards[state, action] += reward", "            self.rewards[state, action] = reward",
+             ['U/_observe/abstract-model-arrays']),
+]
